@@ -3,7 +3,7 @@
    theorems about ALL schedules of the job machine and ALL scripts apply to what the
    implementation was seen to do. *)
 From Verif Require Import Lib.Base Lib.Sched Lib.Reach Model.C02_Scheduler Model.C02_Script.
-From Verif Require Import Proofs.C02 Proofs.C02_Script Proofs.C02_ScriptExact.
+From Verif Require Import Proofs.C02 Proofs.C02_Script Proofs.C02_ScriptExact Proofs.C02_ScriptMore.
 From Verif Require Import Check.C02.
 
 Lemma list_eqb_N : forall a b, list_eqb N.eqb a b = true -> a = b.
@@ -115,4 +115,74 @@ Proof.
     destruct (cst_match_ret_nil o Hmatch) as [-> | ->]; [exact (Hn1 Ho) | exact (Hn2 Ho)]. }
   apply (script_exactly_once_obs sc Hk Hv t Ht Hdue (Hno _ Hnc) (Hno _ Hnx)).
   rewrite Hr; exact Hrun.
+Qed.
+
+Lemma list_match_nth_l : forall {X} (f : X -> X -> bool) a b i o,
+    list_match f a b = true -> nth_error a i = Some o -> exists m, nth_error b i = Some m /\ f o m = true.
+Proof.
+  intros X f a; induction a as [|x a IH]; intros b i o H Hn; destruct b as [|y b]; cbn in H; try discriminate H.
+  - destruct i; discriminate Hn.
+  - apply andb_prop in H as [H1 H2]. destruct i.
+    + cbn in Hn. injection Hn as <-. exists y. split; [reflexivity | exact H1].
+    + cbn in Hn. cbn [nth_error]. eapply IH; eauto.
+Qed.
+
+Lemma final_status_nil_inv : forall s, final_status s = Ret Nil -> s = Ret Nil.
+Proof. intros s H; destruct s; cbn in H; try discriminate H; exact H. Qed.
+
+(* an observed [Ret Nil] at position i is a [Ret Nil] of the matched final state *)
+Lemma observed_ret_nil : forall t calls i, list_match cst_match calls (o_calls (outcome_of t)) = true ->
+    nth_error calls i = Some (Ret Nil) -> nth_error (t_calls t) i = Some (Ret Nil).
+Proof.
+  intros t calls i Hm Hn. destruct (list_match_nth_l _ _ _ _ _ Hm Hn) as [m [Hi Hc]].
+  cbn [cst_match] in Hc. unfold cst_eqb in Hc. apply N.eqb_eq in Hc. apply cst_n_inj in Hc. subst m.
+  rewrite final_statuses, nth_error_map in Hi.
+  destruct (nth_error (t_calls t) i) as [s|]; [|discriminate Hi].
+  cbn in Hi. injection Hi as Hi. apply final_status_nil_inv in Hi. subst s. reflexivity.
+Qed.
+
+Lemma obs_to_model_no_success : forall sc t ob k,
+    list_match cst_match (o_calls (ob_out ob)) (o_calls (outcome_of t)) = true ->
+    obs_no_success sc k (o_calls (ob_out ob)) -> no_ret_nil sc k (t_calls t).
+Proof.
+  intros sc t ob k Hcalls Hobs i cl H1 H2 H3.
+  assert (Hm : nth_error (o_calls (outcome_of t)) i = Some (Ret Nil)).
+  { rewrite final_statuses, nth_error_map, H3. reflexivity. }
+  destruct (list_match_nth _ _ _ _ _ Hcalls Hm) as [o [Ho Hmatch]].
+  destruct (Hobs i cl H1 H2) as [Hn1 Hn2].
+  destruct (cst_match_ret_nil o Hmatch) as [-> | ->]; [exact (Hn1 Ho) | exact (Hn2 Ho)].
+Qed.
+
+(* "an early-run request that reports success means the job runs", for a checked observation *)
+Lemma checked_run_success : forall c sc os, agree c = true -> c_body c = Timed sc os ->
+    sc_kind sc = OneOff -> sc_variant sc = Fixed ->
+    forall ob, In ob os -> ob_running ob = 0 ->
+      (exists i cl, nth_error (sc_calls sc) i = Some cl /\ cl_kind cl = KRun
+                    /\ nth_error (o_calls (ob_out ob)) i = Some (Ret Nil)) ->
+      obs_no_success sc KCtx (o_calls (ob_out ob)) ->
+      length (o_starts (ob_out ob)) = 1%nat.
+Proof.
+  intros c sc os Ha Hb Hk Hv ob Hob Hrun [i [cl [H1 [H2 H3]]]] Hnx.
+  destruct (obs_match_final _ _ (agree_timed c sc os Ha Hb ob Hob)) as [t [Ht [Hr [Hcalls [Hs _]]]]].
+  rewrite Hs.
+  apply (script_run_success_runs sc Hk Hv t Ht).
+  - exists i, cl. repeat split; try assumption. eapply observed_ret_nil; eauto.
+  - eapply obs_to_model_no_success; eauto.
+  - rewrite Hr; exact Hrun.
+Qed.
+
+(* "cancelled clearly before its time never runs", for a checked observation of a script that ends
+   before the job's time *)
+Lemma checked_cancel_before : forall c sc os, agree c = true -> c_body c = Timed sc os ->
+    sc_kind sc = OneOff -> sc_variant sc = Fixed -> sc_end sc < sc_due sc ->
+    forall ob, In ob os ->
+      (exists i cl, nth_error (sc_calls sc) i = Some cl /\ cl_kind cl = KCancel
+                    /\ nth_error (o_calls (ob_out ob)) i = Some (Ret Nil)) ->
+      o_starts (ob_out ob) = [].
+Proof.
+  intros c sc os Ha Hb Hk Hv Hend ob Hob [i [cl [H1 [H2 H3]]]].
+  destruct (obs_match_final _ _ (agree_timed c sc os Ha Hb ob Hob)) as [t [Ht [_ [Hcalls [Hs _]]]]].
+  rewrite Hs.
+  apply (script_cancel_before_due sc Hk Hv Hend t Ht).
+  exists i, cl. repeat split; try assumption. eapply observed_ret_nil; eauto.
 Qed.
